@@ -274,6 +274,7 @@ pub fn run_model(ctor: &Ctor, ops: &[BOp]) -> Model {
                 }
                 m.payload.extend(ref_encode(&p));
             }
+            BOp::RawWrite(_) => {}
         }
     }
     m
@@ -298,7 +299,7 @@ impl Model {
 // ------------------------------------------------------------ real -----------
 
 /// Harness payload that delegates to the real `WriteToHeader` impl of the value it wraps.
-enum P<'a> {
+pub enum P<'a> {
     U8(u8),
     U16(u16),
     U32(u32),
@@ -346,7 +347,7 @@ impl<'a> WriteToHeader for P<'a> {
     }
 }
 
-fn to_p<'a>(p: &Payload, data: &'a [u8]) -> P<'a> {
+pub fn to_p<'a>(p: &Payload, data: &'a [u8]) -> P<'a> {
     match p {
         Payload::U8(x) => P::U8(*x),
         Payload::U16(x) => P::U16(*x),
@@ -386,7 +387,7 @@ fn to_p<'a>(p: &Payload, data: &'a [u8]) -> P<'a> {
     }
 }
 
-fn payload_data(p: &Payload) -> Vec<u8> {
+pub fn payload_data(p: &Payload) -> Vec<u8> {
     match p {
         Payload::Slice(f)
         | Payload::TlvStruct(_, f)
@@ -587,6 +588,7 @@ pub fn run_real(ctor: &Ctor, ops: &[BOp]) -> RealOutcome {
                     Err(_) => return RealOutcome::WriteFailed(i),
                 }
             }
+            BOp::RawWrite(_) => {}
         }
     }
     match b.build() {
@@ -629,21 +631,61 @@ fn gen_fill(rng: &mut Rng, big: bool) -> Fill {
     }
 }
 
+/// An integer for a payload: half of the time a boundary value (small, around the edges of
+/// every narrower width, all-ones), so that an encoder that narrows or widens by value, or
+/// special-cases zero, is exercised; otherwise 128 random bits (the caller truncates).
+fn gen_int(rng: &mut Rng) -> u128 {
+    if rng.chance(1, 2) {
+        let base: u128 = *rng.pick(&[
+            0u128,
+            1,
+            2,
+            0x7f,
+            0x80,
+            0xff,
+            0x100,
+            0x7fff,
+            0x8000,
+            0xffff,
+            0x1_0000,
+            0x7fff_ffff,
+            0x8000_0000,
+            0xffff_ffff,
+            0x1_0000_0000,
+            0x7fff_ffff_ffff_ffff,
+            0x8000_0000_0000_0000,
+            0xffff_ffff_ffff_ffff,
+            0x1_0000_0000_0000_0000,
+            u128::MAX >> 1,
+            1u128 << 127,
+            u128::MAX,
+            0x0102_0304_0506_0708_090a_0b0c_0d0e_0f10,
+        ]);
+        match rng.below(4) {
+            0 => base.wrapping_neg(),
+            1 => base.wrapping_sub(1),
+            _ => base,
+        }
+    } else {
+        ((rng.next_u64() as u128) << 64) | rng.next_u64() as u128
+    }
+}
+
 pub fn gen_payload(rng: &mut Rng, big: bool) -> Payload {
     let k = rng.byte();
     match rng.below(19) {
-        0 => Payload::U8(rng.byte()),
-        1 => Payload::U16(rng.next_u64() as u16),
-        2 => Payload::U32(rng.next_u64() as u32),
-        3 => Payload::U64(rng.next_u64()),
-        4 => Payload::U128(((rng.next_u64() as u128) << 64) | rng.next_u64() as u128),
-        5 => Payload::Usize(rng.next_u64() as usize),
-        6 => Payload::I8(rng.byte() as i8),
-        7 => Payload::I16(rng.next_u64() as i16),
-        8 => Payload::I32(rng.next_u64() as i32),
-        9 => Payload::I64(rng.next_u64() as i64),
-        10 => Payload::I128((((rng.next_u64() as u128) << 64) | rng.next_u64() as u128) as i128),
-        11 => Payload::Isize(rng.next_u64() as isize),
+        0 => Payload::U8(gen_int(rng) as u8),
+        1 => Payload::U16(gen_int(rng) as u16),
+        2 => Payload::U32(gen_int(rng) as u32),
+        3 => Payload::U64(gen_int(rng) as u64),
+        4 => Payload::U128(gen_int(rng)),
+        5 => Payload::Usize(gen_int(rng) as usize),
+        6 => Payload::I8(gen_int(rng) as i8),
+        7 => Payload::I16(gen_int(rng) as i16),
+        8 => Payload::I32(gen_int(rng) as i32),
+        9 => Payload::I64(gen_int(rng) as i64),
+        10 => Payload::I128(gen_int(rng) as i128),
+        11 => Payload::Isize(gen_int(rng) as isize),
         12 => Payload::Slice(gen_fill(rng, big)),
         13 => Payload::Addr(rng.range(0, 3) as u8, gen_fill(rng, false)),
         14 => Payload::TlvStruct(k, gen_fill(rng, big)),
